@@ -105,7 +105,7 @@ def corpus_defs(tier):
         _mc({}, module='MCOracles', invariants=('AdtsOK', 'OpusOK', 'Vp9OK'), properties=()),     # self-consistency of the ADTS / Opus / VP9 oracles
     ], rand=[dict(gen='adts', n=0, rel='none', facets={'bytes': True, 'timing': False, 'tree': False, 'raw': False})])
     # --- layout: all codec x audio x metadata x layout configurations; tree + raw facets --------
-    d['layout'] = dict(trace='TraceMuxide', rand=[dict(gen='layout', n=0, rel='meta', facets=F_ALL), dict(gen='keydetect', n=0, rel='none', facets=None)])
+    d['layout'] = dict(trace='TraceMuxide', rand=[dict(gen='layout', n=0, rel='meta', facets=F_ALL), dict(gen='keydetect', n=0, rel='none', facets=None), dict(gen='ties', n=0, rel='none', facets=None)])
     d['metalayout'] = dict(trace='TraceMuxide', rand=[dict(gen='metalayout', n=0, rel='layout', facets=None)])
     # init segments: generator families, plus AV1 sequence headers enumerated by MCAv1Seq (operating points: tier / level) handed to the builder / config
     d['fraginit'] = dict(trace='TraceFrag', transform='av1init', mc=[
